@@ -49,6 +49,19 @@ READS = RP_CONTRACTS[2:]
 PXC = 'pexpect.pxssh.pxssh.'
 
 PROPS = {
+    'C03': {
+        'contracts': [E + 'do_search', E + 'existing_data', E + 'new_data', E + 'expect_loop', SS + 'search', SR + 'search',
+                      (E + 'do_search', 'ctx:exact'), (E + 'existing_data', 'ctx:exact'), (E + 'new_data', 'ctx:exact'),
+                      (E + 'expect_loop', 'ctx:exact'),
+                      'pexpect._async_w_await.PatternWaiter.data_received', 'pexpect._async_w_await.expect_async'],
+        'assumptions': [
+            'str.find(s, start) returns the LOWEST index >= start at which s occurs, or -1 (documented CPython semantics; Find axioms in pyvc/engine.py)',
+            'the regex searcher (searcher_re.search, proved under C02 to be a function of the window and W only) is asked to search exactly the naive region: this is what window-is-last-W-of-pending / window-is-all-pending prove; which occurrence the re engine selects inside it is the re module\'s contract',
+            'a user-supplied searcher object (expect_loop(searcher)) is only known through the searcher interface: for it the same window clauses are proved, agreement with naive search of its own semantics is not expressible',
+            'the exact-string search is proved against Find(region, s, 0) = region.find(s) through the lemma incremental_find, itself proved on every run (cvc5) from the definition of Find and cross-checked against CPython on short strings',
+        ],
+        'extra': 'contracts.extra_c03',
+    },
     'C20': {
         'contracts': ['pexpect.spawnbase.SpawnBase._coerce_expect_string', 'pexpect.spawnbase.SpawnBase._coerce_expect_re',
                       'pexpect.spawnbase.SpawnBase.compile_pattern_list', 'pexpect.spawnbase.SpawnBase.expect'],
